@@ -37,6 +37,16 @@ type cand struct {
 type valCase struct {
 	Field *j5sgen.Field `json:"field"`
 	Cands []cand        `json:"candidates"`
+	// Siblings are declared in the same object, Before of them ahead of the
+	// subject, and always carry a value their own rules accept: the verdict on
+	// the subject may not depend on what is declared next to it.
+	Siblings []sibling `json:"siblings,omitempty"`
+	Before   int       `json:"before,omitempty"`
+}
+
+type sibling struct {
+	Field *j5sgen.Field `json:"field"`
+	Value cand          `json:"value"`
 }
 
 func laneCase(raw json.RawMessage) ([]vf.Failure, error) {
@@ -336,7 +346,17 @@ func toValue(fd protoreflect.FieldDescriptor, t *j5sgen.Type, c cand) (protorefl
 }
 
 func check(c valCase) (fails []vf.Failure, accepted, rejected int) {
-	obj := &j5sgen.Object{Name: "Holder", Fields: []*j5sgen.Field{c.Field}}
+	var fields []*j5sgen.Field
+	for i, sb := range c.Siblings {
+		if i == c.Before {
+			fields = append(fields, c.Field)
+		}
+		fields = append(fields, sb.Field)
+	}
+	if c.Before >= len(c.Siblings) {
+		fields = append(fields, c.Field)
+	}
+	obj := &j5sgen.Object{Name: "Holder", Fields: fields}
 	b := &j5sgen.Bundle{Packages: []*j5sgen.Package{{Name: "rule.check.v1", Files: []*j5sgen.File{{Path: "rule/check/v1/main.j5s", Decls: []*j5sgen.Decl{{Object: obj}}}}}}}
 	src := &j5sx.Bundle{Files: b.Render()}
 	var files linker.Files
@@ -348,10 +368,13 @@ func check(c valCase) (fails []vf.Failure, accepted, rejected int) {
 		return []vf.Failure{vf.Failf("compile|error", "declaration does not compile (C07's verdict): %v\n%s", err, src.Files["rule/check/v1/main.j5s"])}, 0, 0
 	}
 	md := files[0].Messages().ByName("Holder")
-	if md == nil || md.Fields().Len() != 1 {
+	if md == nil || md.Fields().Len() != len(fields) {
 		return []vf.Failure{vf.Failf("harness|shape", "compiled message not found")}, 0, 0
 	}
-	fd := md.Fields().Get(0)
+	fd := md.Fields().ByJSONName(c.Field.Name)
+	if fd == nil {
+		return []vf.Failure{vf.Failf("harness|shape", "compiled subject field not found")}, 0, 0
+	}
 	validator, err := protovalidate.New()
 	if err != nil {
 		return []vf.Failure{vf.Failf("harness|validator", "%v", err)}, 0, 0
@@ -359,6 +382,14 @@ func check(c valCase) (fails []vf.Failure, accepted, rejected int) {
 	ruleSig := ruleSignature(c.Field)
 	for _, cd := range c.Cands {
 		msg := dynamicpb.NewMessage(md)
+		for _, sb := range c.Siblings {
+			if sb.Value.Absent {
+				continue
+			}
+			if err := setValue(msg, md.Fields().ByJSONName(sb.Field.Name), sb.Field.Type, sb.Value); err != nil {
+				return []vf.Failure{vf.Failf("harness|value", "sibling: %v", err)}, 0, 0
+			}
+		}
 		if !cd.Absent {
 			if c.Field.Type.Kind == "map" {
 				m := msg.Mutable(fd).Map()
@@ -404,6 +435,10 @@ func check(c valCase) (fails []vf.Failure, accepted, rejected int) {
 				dir = "accepts-forbidden"
 			}
 			cj, _ := json.Marshal(cd)
+			if on := violatedField(verr); !got && on != "" && on != string(fd.Name()) {
+				// the value that was refused is a sibling's, which its own rules accept
+				dir = "rejects-allowed-sibling"
+			}
 			fails = append(fails, vf.Failf("verdict|"+dir+"|"+ruleSig+firstNonEmpty(why, reasonOf(verr)), "value %s: rules say accept=%v (%s), validator says accept=%v (%v)\n%s", cj, want, why, got, verr, src.Files["rule/check/v1/main.j5s"]))
 		}
 	}
@@ -423,6 +458,15 @@ func firstNonEmpty(a, b string) string {
 func reasonOf(err error) string {
 	if ve, ok := err.(*protovalidate.ValidationError); ok && len(ve.Violations) > 0 {
 		return "validator:" + ve.Violations[0].Proto.GetConstraintId()
+	}
+	return ""
+}
+
+func violatedField(err error) string {
+	if ve, ok := err.(*protovalidate.ValidationError); ok && len(ve.Violations) > 0 {
+		if els := ve.Violations[0].Proto.GetField().GetElements(); len(els) > 0 {
+			return els[0].GetFieldName()
+		}
 	}
 	return ""
 }
@@ -739,10 +783,49 @@ func drawCase(t *rapid.T) valCase {
 	return valCase{Field: f, Cands: cs}
 }
 
+// drawSiblings adds up to three scalar fields next to the subject, each with a
+// value its rules accept (or absent where that is accepted).
+func drawSiblings(t *rapid.T, c *valCase) {
+	n := rapid.SampledFrom([]int{0, 0, 1, 2, 3}).Draw(t, "nsiblings")
+	for i := 0; i < n; i++ {
+		ty, cs := drawLeaf(t, false)
+		if rapid.IntRange(0, 2).Draw(t, "samekind") == 0 && c.Field.Type.Kind != "array" && c.Field.Type.Kind != "map" {
+			// the same kind and format as the subject, with its own presence
+			ty = &j5sgen.Type{Kind: c.Field.Type.Kind, Format: c.Field.Type.Format, KeyPattern: c.Field.Type.KeyPattern, InlineEnum: c.Field.Type.InlineEnum, Ref: c.Field.Type.Ref}
+			cs = c.Cands
+		}
+		f := &j5sgen.Field{Name: fmt.Sprintf("sib%d", i), Type: ty}
+		switch rapid.IntRange(0, 2).Draw(t, "sibpresence") {
+		case 0:
+			f.Required = true
+		case 1:
+			f.Optional = true
+		}
+		cs = append(append([]cand{}, cs...), cand{Absent: true}, zeroCand(ty))
+		var ok []cand
+		for _, cd := range cs {
+			if yes, _ := expected(f, cd); yes {
+				ok = append(ok, cd)
+			}
+		}
+		if len(ok) == 0 {
+			continue
+		}
+		c.Siblings = append(c.Siblings, sibling{Field: f, Value: rapid.SampledFrom(ok).Draw(t, "sibvalue")})
+	}
+	if len(c.Siblings) > 0 {
+		c.Before = rapid.IntRange(0, len(c.Siblings)).Draw(t, "before")
+	}
+}
+
 func TestRules(t *testing.T) {
 	r := vf.Start(t, prop, "rules")
+	// the verdict on a declaration is a statement about that declaration alone
+	// (state carried across compilations is C14's subject)
+	r.ConfirmFresh()
 	rapid.Check(t, func(t *rapid.T) {
 		c := drawCase(t)
+		drawSiblings(t, &c)
 		fails, acc, rej := check(c)
 		cls := []string{"kind:" + ruleSignature(c.Field)}
 		if c.Field.Required {
@@ -750,6 +833,9 @@ func TestRules(t *testing.T) {
 		}
 		if c.Field.Optional {
 			cls = append(cls, "optional")
+		}
+		if len(c.Siblings) > 0 {
+			cls = append(cls, fmt.Sprintf("siblings:%d", len(c.Siblings)))
 		}
 		if acc > 0 && rej > 0 {
 			cls = append(cls, "both-verdicts")
